@@ -106,7 +106,7 @@ def _fragment(title, pad, cycle, boot, total, entries, marker=False):
         s1[0:4] = t[8:12]
     s1[4] = cycle
     s1[5] = 8 * len(entries)
-    s1[6] = ((boot & 3) << 4) | ((total >> 8) & 3)
+    s1[6] = ((boot & 3) << 4) | ((total >> 8) & 3) | (((total >> 10) & 1) << 2)    # bit 2: Watford large disc (bit 10)
     s1[7] = total & 0xFF
     for i, e in enumerate(entries):
         off = 8 + 8 * i
